@@ -142,7 +142,7 @@ impl UdpSocket {
             cv: Condvar::new(),
         });
         n.nodes.insert(addr, slot.clone());
-        if !n.next_direct {
+        if !n.next_direct && rng_state() == 0 {
             seed_thread(n.next_seed);
         }
         Ok(UdpSocket { addr, slot })
@@ -302,6 +302,20 @@ thread_local! { static RNG: Cell<u64> = const { Cell::new(0) }; }
 /// Harness: seed the calling thread's random stream (0 = use the OS source).
 pub fn seed_thread(seed: u64) {
     RNG.with(|r| r.set(seed));
+}
+/// Actor thread entry: seed the random stream before the node id is drawn, with the seed the
+/// harness prepared for the next `bind`.
+pub fn seed_actor_thread() {
+    let (seed, direct) = {
+        let n = net().lock().unwrap();
+        (n.next_seed, n.next_direct)
+    };
+    if !direct && n_next_ip_is_set() {
+        seed_thread(seed);
+    }
+}
+fn n_next_ip_is_set() -> bool {
+    net().lock().unwrap().next_ip.is_some()
 }
 /// Harness: current state of the calling thread's random stream.
 pub fn rng_state() -> u64 {
